@@ -31,6 +31,14 @@ def warmup():
     import adsg_core.optimization.evaluator  # noqa
     simenv.setup(REPO)
     simenv.install_limiter()
+    import adsg_core.optimization.assign_enc.selector as sel
+    from simkit import gen_settings
+    with simenv.RunEnv(1):  # compile the numba kernels once, in the parent
+        st_, _ = gen_settings.build({'src': [{'conns': [1, 2], 'rep': False}],
+                                     'tgt': [{'conns': [0, 1], 'rep': False}, {'conns': [0, 1], 'rep': False}],
+                                     'excluded': [], 'patterns': None})
+        sel.EncoderSelector(st_).get_best_assignment_manager(cache=False)
+    simenv.reset()
     return {'interrupt_type_injected': 'SystemError (probed from the real limiter by C19 / E1)'}
 
 
@@ -542,14 +550,22 @@ def gen_ops(rng, n, weights):
     return ops
 
 
-def generate(prop, seed, tier, weights, n_ops=(4, 14), n_incompat_max=2, with_dv=True, p_cycles=(0.0, 0.0, 0.0, 0.15)):
+def generate(prop, seed, tier, weights, n_ops=(4, 14), n_incompat_max=2, with_dv=True, p_cycles=(0.0, 0.0, 0.0, 0.15),
+             conn_share=0.0):
     s = Streams(seed)
     rng = s('gen')
-    pc = rng.choice(list(p_cycles))
-    spec = gen_dsg.gen_selection_spec(rng, n_incompat_max=rng.choice([0, 0, n_incompat_max]),
-                                      p_cycle=pc, p_shared=rng.choice([0.0, 0.3, 0.7]), acyclic=(pc == 0.0))
+    # clean shapes only: acyclic choice structures, every option offered by one choice and derived by nothing else,
+    # incompatibilities between options without forced conflicts. On other shapes the complete encoder's analysis and
+    # the graph walk disagree in many rare ways (DESIGN.md 9.3); those are the subject of C02 / C06, not of the
+    # history- and twin-based properties checked here.
+    spec = gen_dsg.gen_selection_spec(rng, n_incompat_max=rng.choice([0, 0, n_incompat_max + 1]),
+                                      p_cycle=0.0, p_shared=0.0, acyclic=True, tree_options=True)
+    spec = gen_dsg.clean_incompat(spec)
     if with_dv:
         spec = gen_dsg.add_dv_metrics(rng, spec)
+    if conn_share and rng.random() < conn_share:
+        for k in range(rng.choice([1, 2, 2])):
+            spec = gen_dsg.add_conn_choice(rng, spec, cid=f'X{k}', p_group=0.0, max_side=2)
     orng = s('ops')
     ops = gen_ops(orng, orng.randint(*n_ops), weights)
     return {'property': prop, 'engine': ENGINE, 'seed': seed, 'spec': spec, 'ops': ops,
